@@ -441,6 +441,61 @@ def corr_cases(dist, rng, scale):
                       "nontrivial": tot > 2,
                       "info": {"dims": [fl, fr], "pairs": pairs}})
         bump("tensor_swap_index:" + t)
+    # ---- G. reshuffle: the permutation lists built by _to_super_of_tensor /
+    #         _to_tensor_of_super (observed at the Qobj.permute call they make)
+    def spy_reshuffle(q):
+        rec = {}
+        orig = Qobj.permute
+
+        def spy(self, order):
+            rec.setdefault("order", order)
+            return orig(self, order)
+        Qobj.permute = spy
+        try:
+            out = qutip.reshuffle(q)
+            return ("ok", rec.get("order"), out.dims)
+        except Exception as e:
+            return ("err", type(e).__name__)
+        finally:
+            Qobj.permute = orig
+
+    for _ in range(15 * scale):
+        kind = rng.choice(["super", "operator-ket"])
+        k = rng.randint(2, 4)
+        ds = []
+        for _k in range(k):
+            while True:
+                d = [rng.choice([1, 2, 2, 3]) for _ in range(rng.randint(1, 3))]
+                if not all(x == 1 for x in d) and prod(d) <= 4:
+                    break
+            ds.append(d)
+        if prod([prod(d) for d in ds]) > (8 if kind == "super" else 30):
+            ds = ds[:2]
+        ns = [len(d) for d in ds]
+        note_inflight({"op": "reshuffle_perm", "params": {"factor_dims": ds, "kind": kind}})
+        if kind == "super":
+            qs = [Qobj(np.zeros((prod(d) ** 2,) * 2), dims=[[d, d], [d, d]]) for d in ds]
+        else:
+            qs = [qutip.operator_to_vector(Qobj(np.zeros((prod(d),) * 2), dims=[d, d])) for d in ds]
+        r1 = spy_reshuffle(qutip.tensor(*qs))
+        impl = r1 if r1[0] == "err" else ("ok", [[int(x) for x in part] for part in r1[1]])
+        expr = "sot_lists 0 %s" % cnats(ns)
+        cases.append({"kind": "reshuffle_sot", "expr": expr, "impl": impl, "nontrivial": True,
+                      "info": {"factor_dims": ds, "kind": kind}})
+        bump("reshuffle_sot:" + kind)
+        # the other direction, on a superoperator / operator-ket over a composite space
+        D = [x for d in ds for x in d if x > 1]
+        if len(D) >= 2 and prod(D) <= (8 if kind == "super" else 30):
+            if kind == "super":
+                q = Qobj(np.zeros((prod(D) ** 2,) * 2), dims=[[D, D], [D, D]])
+            else:
+                q = qutip.operator_to_vector(Qobj(np.zeros((prod(D),) * 2), dims=[D, D]))
+            r2 = spy_reshuffle(q)
+            impl = r2 if r2[0] == "err" else ("ok", [int(x) for part in r2[1] for x in part])
+            cases.append({"kind": "reshuffle_tos", "expr": "tensor_of_super_order %d" % len(D),
+                          "impl": impl, "nontrivial": True, "info": {"dims": D, "kind": kind}})
+            bump("reshuffle_tos:" + kind)
+
     # ---- F. Kronecker product of square factors: tensor() vs kron_list
     for _ in range(12 * scale):
         d = rand_dims(rng, 4, 24)
@@ -480,6 +535,10 @@ def compare_case(c, val):
     if k == "tensor_perm":
         return (impl[0] == "ok" and list(val[0]) == impl[1] and list(val[1]) == impl[2]
                 and val[2] is True and list(val[3]) == impl[3] and list(val[4]) == impl[4])
+    if k == "reshuffle_sot":
+        return impl[0] == "ok" and [list(val[0]), list(val[1])] == impl[1]
+    if k == "reshuffle_tos":
+        return impl[0] == "ok" and list(val) == impl[1]
     if k == "kron":
         return impl[0] == "ok" and gmat(val) == impl[1]
     if k == "tensor_swap_index":
@@ -692,7 +751,9 @@ def reshuffle_composite_case(p, bad):
         Us = [to_np(m) for m in p["unitaries"]]
         args, SsC = [], []
         for q, (S, U, d, isop) in enumerate(zip(Ss, Us, ds, p["as_oper"])):
-            if isop:
+            if isop and all(x > 1 for x in d):
+                # (to_super drops 1-dimensional subsystems from the dims of a
+                # promoted operator: not a tensor-structure operation of C09)
                 args.append(Qobj(U, dims=[d, d]).to(fmt))
                 SsC.append(np.kron(U.conj(), U))
             else:
@@ -1480,6 +1541,20 @@ def find_failing(kind, lst):
                            "fmt": "Dense",
                            "matrix": [[[r * prod(fr) + cc, 0] for cc in range(prod(fr))]
                                       for r in range(prod(fl))]}, None))
+        elif kind == "reshuffle_sot":
+            ds = info["factor_dims"]
+            ns2 = [prod(d) for d in ds]
+            if info["kind"] == "super":
+                pr = {"kind": "super", "fmt": "Dense", "factor_dims": ds,
+                      "factors": [[[[(r * n * n + 3 * cc) % 7 - 3, (r + 2 * cc) % 3 - 1]
+                                    for cc in range(n * n)] for r in range(n * n)] for n in ns2],
+                      "probes": [[[[r + 2 * cc, r - cc] for cc in range(n)] for r in range(n)] for n in ns2],
+                      "unitaries": [[[[r + cc, 1] for cc in range(n)] for r in range(n)] for n in ns2],
+                      "as_oper": [False] * len(ds)}
+            else:
+                pr = {"kind": "operator-ket", "fmt": "Dense", "factor_dims": ds,
+                      "factors": [[[[r * n + cc, r - cc] for cc in range(n)] for r in range(n)] for n in ns2]}
+            tries.append(("reshuffle_composite", pr, None))
         elif kind == "kron":
             tries.append(("tensor", info, None))
         elif kind == "tensor_perm":
